@@ -90,6 +90,15 @@ class FAtom(object):
     def GetTotalValence(self):
         return self.total_valence
 
+    def GetNumImplicitHs(self):
+        return 0                # fake molecules carry their hydrogens as atoms (as after AddHs)
+
+    def GetTotalNumHs(self, includeNeighbors=False):
+        return sum(1 for n in self.GetNeighbors() if n.z == 1) if includeNeighbors else 0
+
+    def GetDegree(self):
+        return len(self.GetBonds())
+
     def copy(self):
         a = type(self)(self.z, self.symbol, self.charge, self.radical, self.aromatic, self.inring)
         a.props = dict(self.props)
@@ -181,6 +190,22 @@ class FRingInfo(object):
 
     def NumRings(self):
         return len(self.rings)
+
+    def NumAtomRings(self, idx):
+        return sum(1 for r in self.rings if idx in r)
+
+    def MinAtomRingSize(self, idx):
+        sizes = [len(r) for r in self.rings if idx in r]
+        return min(sizes) if sizes else 0
+
+    def AtomRingSizes(self, idx):
+        return tuple(len(r) for r in self.rings if idx in r)
+
+    def IsAtomInRingOfSize(self, idx, size):
+        return any(len(r) == size for r in self.rings if idx in r)
+
+    def AtomMembers(self, idx):
+        return tuple(i for i, r in enumerate(self.rings) if idx in r)
 
 
 class FMol(object):
